@@ -326,8 +326,9 @@ def aw(ctx):
                     out.append(bad('AW', key, 'guard of %s is live across an await' % ', '.join(here), loc=fn.loc(bb), fn=fn.name))
                 else:
                     out.append(ok('AW', key, 'no guard live', loc=fn.loc(bb), fn=fn.name))
-    if n < 9:
-        out.append(undecided('AW', 'floor', 'found %d await points, expected at least 9' % n))
+    # 9 on the pinned tree; the wrappers in Desync::{future_desync, future_sync, after} can legitimately go, the scheduler's and the pipes' cannot
+    if n < 6:
+        out.append(undecided('AW', 'floor', 'found %d await points, expected at least 6' % n))
     return out
 
 
